@@ -62,16 +62,25 @@ VERBS_WITH_SEQ = (b"AVERS", b"CURCH", b"SFILE", b"STATU", b"GETWC", b"SETWC", b"
 
 def session_wire(seed):
     """A full session of the REAL async client (handshake, refresh, facade queries, commands, acknowledgements of the spa's partial
-    updates, socket error notifications in between) against the in-process simulator under virtual time: the sequence byte of every datagram the client put on the wire."""
+    updates, socket error notifications in between, 7% of the client's datagrams lost so that pings, requests and commands are sent again) against the in-process simulator under virtual time: the sequence byte of every datagram the client put on the wire."""
     import asyncio
     import random
     from harness import vloop, session
     rng = random.Random(seed)
 
     async def main(loop):
-        peer = session.Peer(loop, "inYT-all off-2020-10-23 18_00_45.snapshot", latency=0.02, echo_delay=0.2)
+        def script(direction, data):
+            # some datagrams of the client never reach the spa (pings, requests, commands alike): the engine sends again
+            if direction == "up" and rng.random() < 0.07 and connected[0]:
+                return []
+            if direction == "down" and b"<DATAS>STATP" in data:
+                return [(0.22, data)]
+            return [(0.0 if direction == "up" else 0.02, data)]
+        connected = [False]
+        peer = session.Peer(loop, "inYT-all off-2020-10-23 18_00_45.snapshot", latency=0.02, script=script)
         cl = session.Client(peer)
         await cl.connect(with_facade=True)
+        connected[0] = True
         spa = cl.spa
         nerr = [0]
         for k in range(230):
@@ -101,8 +110,9 @@ def session_wire(seed):
                 with vloop.quiet():
                     spa._protocol.error_received(ConnectionRefusedError(111, "Connection refused"))
                 nerr[0] += 1
+        sent = [d for (t, d, a) in loop.endpoints[0].sent]       # everything the client put on the wire, lost datagrams included
         await cl.close()
-        return [d for (t, d) in peer.raw]
+        return sent
     out = []
     for d in vloop.run(main):
         i = d.find(b"<DATAS>")
